@@ -213,4 +213,43 @@ def putStmt (b : Builder) (v : View) (pg : Page) (x0 y0 : Int) (arr : Bytes) (op
 def point (v : View) (pg : Page) (x y : Int) : Int :=
   if x < 0 ∨ x ≥ v.W ∨ y < 0 ∨ y ≥ v.H then -1 else (pg (x + v.offX) (y + v.offY) : Int)
 
+/-! ### histories: the arrays hold bytes; GET writes them, PUT reads them afresh every time -/
+
+/-- `byte_array[:len(packed)] = packed`: the record replaces the head of the array, the rest stays -/
+def writePrefix (old packed : Bytes) : Bytes := packed ++ old.drop packed.length
+
+/-- the page and the current bytes of every array (by number) -/
+structure GState where
+  pg : Page
+  arrs : Nat → Bytes
+
+def GState.setArr (s : GState) (a : Nat) (b : Bytes) : GState :=
+  { s with arrs := fun i => if i = a then b else s.arrs i }
+
+inductive GStmt where
+  | get (a : Nat) (xa ya xb yb : Int)
+  | put (a : Nat) (x0 y0 : Int) (op : PutOp)
+  /-- element assignments, the session API, ERASE + DIM: afterwards the array holds these bytes -/
+  | store (a : Nat) (bytes : Bytes)
+
+/-- one statement; `put_` unpacks `view_full_buffer(array_name)`, i.e. what the array holds now -/
+def gstep (b : Builder) (v : View) (s : GState) : GStmt → R GState
+  | .get a xa ya xb yb =>
+    match getStmt b v s.pg xa ya xb yb (s.arrs a).length with
+    | .error e => .error e
+    | .ok packed => .ok (s.setArr a (writePrefix (s.arrs a) packed))
+  | .put a x0 y0 op =>
+    match putStmt b v s.pg x0 y0 (s.arrs a) op with
+    | .error e => .error e
+    | .ok pg => .ok { s with pg := pg }
+  | .store a bytes => .ok (s.setArr a bytes)
+
+/-- a history: a refused statement (Illegal function call) leaves page and arrays as they were -/
+def grun (b : Builder) (v : View) (s : GState) : List GStmt → GState
+  | [] => s
+  | st :: rest =>
+    match gstep b v s st with
+    | .ok s' => grun b v s' rest
+    | .error _ => grun b v s rest
+
 end PcbV.Sprite
